@@ -145,6 +145,16 @@ class GraphT(Ty):
     def edge_region(self): return "edge:" + _sname(self.elem.sort)
 
 
+    @property
+    def eidx_region(self): return "eidx:" + _sname(self.elem.sort)
+
+
+class EdgeViewT(Ty):
+    """G.edges of a graph value (only subscripted: G.edges[(a, b)]["index"])."""
+    sort = Ref
+    def __init__(self, g): self.g = g; self.name = "edgeview[%s]" % g.elem.name
+
+
 GRAPH = GraphT()
 
 
@@ -154,6 +164,7 @@ def region_sort(region):
     if kind == "seq": return seq_sort(_SORTS[rest])
     if kind == "set": return z3.ArraySort(_SORTS[rest], B)
     if kind == "edge": s = _SORTS[rest]; return z3.ArraySort(s, z3.ArraySort(s, B))
+    if kind == "eidx": s = _SORTS[rest]; return z3.ArraySort(s, z3.ArraySort(s, I))
     if kind == "val":
         k, v = rest.split(":"); return z3.ArraySort(_SORTS[k], _SORTS[v])
     raise KeyError(region)
